@@ -34,10 +34,11 @@ type c06Op struct {
 }
 
 type c06Scenario struct {
-	Ops    []c06Op `json:"ops"`
-	Struct bool    `json:"struct_elements"`
-	Any    bool    `json:"interface_elements_some_of_them_nil,omitempty"`
-	Long   bool    `json:"long_backlogs,omitempty"`
+	Ops       []c06Op `json:"ops"`
+	Struct    bool    `json:"struct_elements"`
+	Any       bool    `json:"interface_elements_some_of_them_nil,omitempty"`
+	Companion bool    `json:"a_second_queue_of_another_element_type_is_used_alongside,omitempty"`
+	Long      bool    `json:"long_backlogs,omitempty"`
 
 	h      *Hist
 	probes map[string]int
@@ -51,6 +52,7 @@ func genC06(t *simrt.Tape, tier string) Scenario {
 	sc := &c06Scenario{probes: map[string]int{}}
 	sc.Struct = t.Bool(1, 3)
 	sc.Any = !sc.Struct && t.Bool(1, 4)
+	sc.Companion = t.Bool(1, 4) // queues are independent objects, whatever their element types
 	// swarm: a random subset of operations, adds always possible
 	var enabled []string
 	for _, k := range c06Kinds {
@@ -341,7 +343,50 @@ func (sc *c06Scenario) Run(s *simrt.Sim) {
 		}
 		return true
 	}
-	for _, o := range sc.Ops {
+	// a second queue of another element type lives beside the one under test (and works as a queue itself)
+	var comp *fpgo.LinkedListQueue[string]
+	var compModel []string
+	compN := 0
+	compStep := func() {
+		if comp == nil {
+			comp = fpgo.NewLinkedListQueue[string]()
+		}
+		compN++
+		k := compN
+		op := h.Do("t", "companion-queue-step", k, func() (interface{}, error) {
+			switch k % 6 {
+			case 1, 2, 5:
+				v := fmt.Sprintf("s%d", k)
+				compModel = append(compModel, v)
+				return nil, comp.Offer(v)
+			case 3:
+				comp.KeepNodePoolCount(2)
+			case 4:
+				comp.ClearNodePool()
+			case 0:
+				v, err := comp.Poll()
+				if len(compModel) == 0 {
+					if err != fpgo.ErrQueueIsEmpty {
+						return v, fmt.Errorf("Poll on the empty companion queue returned (%q, %v)", v, err)
+					}
+					return nil, nil
+				}
+				want := compModel[0]
+				compModel = compModel[1:]
+				if err != nil || v != want {
+					return v, fmt.Errorf("companion Poll returned (%q, %v), want %q", v, err, want)
+				}
+			}
+			return nil, nil
+		})
+		if op.Panic == "" && op.Err != nil {
+			fail("independence", "companion-queue-of-another-element-type", op.Err.Error())
+		}
+	}
+	for oi, o := range sc.Ops {
+		if sc.Companion && oi%3 == 0 {
+			compStep()
+		}
 		trail = append(trail, fmt.Sprintf("%s%s", o.Kind, nStr(o)))
 		ok := true
 		switch o.Kind {
